@@ -119,6 +119,8 @@ type bWorld struct {
 
 	monCh, toCh chan time.Time
 	pendingTick string
+	passKind    string // the kind of the writer pass in progress ("startup", "monitor", "timeout")
+	maxOps      uint
 
 	dids     []*bDID
 	ops      []*bOp
@@ -205,7 +207,7 @@ func runWorldB(rc *RunCtx, prop string) *RunResult {
 	pick := func(name string, vals ...int) { w.rates[name] = vals[T.Draw(len(vals), "cfg.rate."+name)] }
 
 	switch prop {
-	case "C20", "C11", "C04", "C05", "C12", "C06":
+	case "C20", "C11", "C04", "C05", "C12", "C06", "C16":
 		pick("cas.werr", 0, 0, 80, 200)
 		pick("anchor.err", 0, 0, 80, 200)
 		pick("req.dup", 0, 0, 100)
@@ -362,11 +364,26 @@ func runWorldB(rc *RunCtx, prop string) *RunResult {
 
 		p := simenv.DefaultProtocol(g)
 		p.MaxOperationCount = maxOps
+		w.maxOps = maxOps
 		p.MaxOperationSize = 20000
 		p.MaxDeltaSize = uint(3000 + 500*i)
 		p.MaxOperationTimeDelta = uint64(30 + 17*i)
 		// every version enables both hash algorithms (a DID keeps the algorithm it was created with); the primary one varies
 		p.MultihashAlgorithms = [][]uint{{simenv.SHA2_256, simenv.SHA2_512}, {simenv.SHA2_512, simenv.SHA2_256}}[(i+T.Draw(2, "cfg.hashset"))%2]
+
+		// a version may not know the also-known-as patch actions (an earlier one that predates them, or a later one that
+		// retired them): operations are validated and applied under the version that accepted them, whatever is current
+		if T.Draw(4, "cfg.aka.off") == 0 {
+			var kept []string
+
+			for _, a := range p.Patches {
+				if a != "add-also-known-as" && a != "remove-also-known-as" {
+					kept = append(kept, a)
+				}
+			}
+
+			p.Patches = kept
+		}
 
 		deps := &simenv.VersionDeps{CAS: w.cas, TimeValidator: w.tv, OpStore: w.store}
 		if w.useUnpub {
@@ -398,6 +415,9 @@ func runWorldB(rc *RunCtx, prop string) *RunResult {
 
 		return nil
 	}
+
+	w.q.OnRemove = w.onRemove
+	w.passKind = "startup"
 
 	var err error
 
@@ -553,6 +573,10 @@ func (w *bWorld) genPatches(create bool) []workload.PatchDesc {
 			kind = workload.AddKey
 		}
 
+		if kind == workload.AddAKA && !w.akaEnabled() {
+			kind = workload.AddSvc // the client library only offers what the current protocol version knows
+		}
+
 		pool := workload.KeyIDs()
 		if kind == workload.AddSvc || kind == workload.RemoveSvc {
 			pool = workload.SvcIDs()
@@ -575,6 +599,27 @@ func (w *bWorld) genPatches(create bool) []workload.PatchDesc {
 	return out
 }
 
+// akaEnabled: does the protocol version that is current now know the also-known-as patch actions?
+func (w *bWorld) akaEnabled() bool {
+	for _, a := range w.proto.CurrentVersion().P.Patches {
+		if a == "add-also-known-as" {
+			return true
+		}
+	}
+
+	return false
+}
+
+func usesAKA(op *bOp) bool {
+	for _, pd := range op.M.Patches {
+		if pd.Kind == workload.AddAKA || pd.Kind == workload.RemoveAKA {
+			return true
+		}
+	}
+
+	return false
+}
+
 // genOpaque draws an opaque document (the client library turns it into patches itself).
 func (w *bWorld) genOpaque() (string, []workload.PatchDesc) {
 	k := w.k
@@ -586,7 +631,7 @@ func (w *bWorld) genOpaque() (string, []workload.PatchDesc) {
 		svcs = workload.SvcIDs()[:1+k.Draw(2, "opaque.svcs")]
 	}
 
-	if k.Draw(3, "opaque.aka") == 0 {
+	if k.Draw(3, "opaque.aka") == 0 && w.akaEnabled() {
 		uris = []string{"https://a.example/1"}
 	}
 
@@ -602,7 +647,26 @@ func (w *bWorld) genOpaque() (string, []workload.PatchDesc) {
 
 // ---------------------------------------------------------------- clients
 
+// post submits a request: through the REST update handler, or (one time in three) directly through the document
+// handler, naming the protocol version by the current transaction time as protocol.Client.Get allows.
 func (w *bWorld) post(req []byte) (int, []byte) {
+	if w.k.Draw(3, "post.direct") == 0 {
+		w.k.Count("probe:submitted-directly-to-document-handler")
+
+		res, err := w.handler.ProcessOperation(req, w.ledgerNow())
+		if err != nil {
+			if strings.Contains(err.Error(), "bad request") {
+				return http.StatusBadRequest, []byte(err.Error())
+			}
+
+			return http.StatusInternalServerError, []byte(err.Error())
+		}
+
+		b, _ := json.Marshal(res)
+
+		return http.StatusOK, b
+	}
+
 	rr := httptest.NewRecorder()
 	w.update.Update(rr, httptest.NewRequest(http.MethodPost, "/operations", bytes.NewReader(req)))
 
@@ -848,6 +912,45 @@ func (w *bWorld) clientStep(d *bDID) {
 	}
 }
 
+// onRemove: the cut rules of C16, with the operations arriving through the document handler. Versions are compared
+// by the protocol version that the queue label denotes (the label is whatever the handler handed to the writer).
+func (w *bWorld) onRemove(items []simenv.QItem, _ uint, before []simenv.QItem) {
+	if len(items) == 0 {
+		return
+	}
+
+	canon := func(label uint64) uint64 {
+		v, err := w.proto.Get(label)
+		if err != nil {
+			return label
+		}
+
+		return v.Protocol().GenesisTime
+	}
+
+	if uint(len(items)) > w.maxOps {
+		w.fail("C16", "cut/too-large", fmt.Sprintf("cut of %d operations exceeds MaxOperationCount %d", len(items), w.maxOps))
+	}
+
+	for _, it := range items[1:] {
+		if canon(it.Version) != canon(items[0].Version) {
+			w.fail("C16", "cut/mixed-versions", fmt.Sprintf("one cut holds operations accepted under protocol versions %d and %d", canon(items[0].Version), canon(it.Version)))
+
+			break
+		}
+	}
+
+	if uint(len(items)) < w.maxOps {
+		boundary := len(before) > len(items) && canon(before[len(items)].Version) != canon(items[0].Version)
+		forced := w.passKind == "timeout" || w.passKind == "startup"
+
+		if !boundary && !forced {
+			w.fail("C16", "cut/underfull", fmt.Sprintf("cut of %d < max %d on a %s pass with no protocol-version boundary behind it (queue had %d; queue labels %d.. next %d)",
+				len(items), w.maxOps, w.passKind, len(before), items[0].Version, before[len(items)%len(before)].Version))
+		}
+	}
+}
+
 func (w *bWorld) faultsOffAndIdle() bool { return w.faultsOff && len(w.q.Model) == 0 && !w.q.HasInFl }
 
 func (w *bWorld) newOp(d *bDID, typ operation.Type, req []byte, m *refmodel.Op) *bOp {
@@ -974,6 +1077,12 @@ func (w *bWorld) submit(op *bOp) {
 			if now < op.M.From || now > until {
 				legit = true
 			}
+		}
+
+		// a retried request may arrive after a protocol switch to a version that does not know one of its patch actions
+		if usesAKA(op) && !w.akaEnabled() {
+			legit = true
+			k.Count("probe:retry-refused-by-newer-version")
 		}
 
 		if !legit {
@@ -1683,6 +1792,7 @@ func (w *bWorld) check() {
 		}
 
 		if len(ch) == 0 {
+			w.passKind = w.pendingTick
 			w.pendingTick = ""
 		}
 	}
@@ -2065,14 +2175,12 @@ func (w *bWorld) externalChecks(d *bDID, st *refmodel.State) {
 		for _, e := range l {
 			em, _ := e.(map[string]interface{})
 			id, _ := em["id"].(string)
-			jwk, _ := em["publicKeyJwk"].(map[string]interface{})
-			x, _ := jwk["x"].(string)
-			gotKeys = append(gotKeys, strings.TrimPrefix(id, did)+"="+x)
+			gotKeys = append(gotKeys, strings.TrimPrefix(id, did)+"="+externalKeyShown(em))
 		}
 	}
 
 	for _, e := range st.Doc.Keys {
-		wantKeys = append(wantKeys, "#"+e.ID+"="+e.Mark)
+		wantKeys = append(wantKeys, "#"+e.ID+"="+externalKeyWanted(e.ID, e.Mark))
 	}
 
 	if l, ok := doc["service"].([]interface{}); ok {
@@ -2352,14 +2460,12 @@ func (w *bWorld) versionCutChecks(d *bDID) {
 			for _, e := range l {
 				em, _ := e.(map[string]interface{})
 				id, _ := em["id"].(string)
-				jwk, _ := em["publicKeyJwk"].(map[string]interface{})
-				x, _ := jwk["x"].(string)
-				gotKeys = append(gotKeys, rel(id)+"="+x)
+				gotKeys = append(gotKeys, rel(id)+"="+externalKeyShown(em))
 			}
 		}
 
 		for _, e := range st.Doc.Keys {
-			wantKeys = append(wantKeys, "#"+e.ID+"="+e.Mark)
+			wantKeys = append(wantKeys, "#"+e.ID+"="+externalKeyWanted(e.ID, e.Mark))
 		}
 
 		if l, ok := doc["service"].([]interface{}); ok {
@@ -2392,6 +2498,30 @@ func (w *bWorld) versionCutChecks(d *bDID) {
 
 func jcsOf(v interface{}) ([]byte, error) { return canonicalizer.MarshalCanonical(v) }
 
+// externalKeyShown: how a verification method of the external document carries its key ("member:value").
+func externalKeyShown(em map[string]interface{}) string {
+	var parts []string
+
+	if jwk, ok := em["publicKeyJwk"].(map[string]interface{}); ok {
+		x, _ := jwk["x"].(string)
+		parts = append(parts, "publicKeyJwk:"+x)
+	}
+
+	for _, f := range []string{"publicKeyBase58", "publicKeyMultibase"} {
+		if v, ok := em[f].(string); ok {
+			parts = append(parts, f+":"+v)
+		}
+	}
+
+	return strings.Join(parts, "+")
+}
+
+func externalKeyWanted(id, mark string) string {
+	f, v := workload.ExternalKeyValue(id, mark)
+
+	return f + ":" + v
+}
+
 func init() {
 	for _, p := range []string{"C20", "C15", "C11"} {
 		p := p
@@ -2408,6 +2538,10 @@ func init() {
 		p := p
 		register(p, Scenario{Name: "B-intake", World: "B", Weight: 1, Run: func(rc *RunCtx) *RunResult { return runWorldB(rc, p) }})
 	}
+
+	// C16 through the whole node: the queue model, the ack/nack contract and the cut rules with operations arriving
+	// through the document handler (the writer worlds W-M1/W-M2 remain the main check)
+	register("C16", Scenario{Name: "B-node", World: "B", Weight: 1, Run: func(rc *RunCtx) *RunResult { return runWorldB(rc, "C16") }})
 
 	register("C06", Scenario{Name: "B-version-cut", World: "B", Weight: 1, Run: func(rc *RunCtx) *RunResult { return runWorldB(rc, "C06") }})
 }
